@@ -14,6 +14,7 @@ package main
 // the oracle c07.total: no panic, returns within the time limit, allocates at most 256 B per input byte
 // plus 1 MiB.
 import (
+	"bytes"
 	"fmt"
 	"sort"
 	"strings"
@@ -202,12 +203,16 @@ func genC07(c *Ctx) {
 	run := func(fn string, args []Val, idx int, m []byte) {
 		a2 := append([]Val{}, args...)
 		a2[idx] = B(m)
+		// the guarded oracle first: an input on which the decoder does not return must not hang the harness
+		if !c.Check("c07.total", S(fn), L(a2...)) {
+			perEntry[fn]++
+			return
+		}
 		if modelled(fn, m) {
 			c.Case(fn, a2...)
 		} else {
 			oracleOnly++
 		}
-		c.Check("c07.total", S(fn), L(a2...))
 		perEntry[fn]++
 	}
 	for _, cls := range classes {
@@ -295,6 +300,36 @@ func genC07(c *Ctx) {
 		run(fn, proto, idx, nil)
 		for k := 0; k < c.N(20, 200); k++ {
 			run(fn, proto, idx, r.Bytes(r.Intn(48)))
+		}
+	}
+	// inputs longer than 64 KiB for the decoders that walk a list (cursors and bounds kept in 16 bits wrap there)
+	{
+		avList := func(k, v int) []byte {
+			var ti []byte
+			for i := 0; i < k; i++ {
+				ti = append(ti, byte(1+i%6), 0, byte(v), byte(v>>8))
+				ti = append(ti, bytes.Repeat([]byte{byte(i)}, v)...)
+			}
+			return append(ti, 0, 0, 0, 0)
+		}
+		long := []struct {
+			fn string
+			in []byte
+		}{
+			{"ntlm.parse_target_info", avList(16, 4092)}, {"ntlm.parse_target_info", avList(17, 4092)}, {"ntlm.parse_target_info", avList(3, 65535)},
+			{"llmnr.decode_message", c09BigCompressed(65496, 1)}, {"llmnr.decode_message", c09BigCompressed(65508, 2)},
+			{"dialects.unmarshal", bytes.Repeat([]byte("\x02NT LM 0.12\x00"), 6000)},
+			{"utf16.decode", bytes.Repeat([]byte{0x41, 0x00, 0x3d, 0xd8, 0x00, 0xde}, 12000)},
+		}
+		for _, l := range long {
+			if _, ok := impls[l.fn]; !ok {
+				continue
+			}
+			args := []Val{B(nil)}
+			run(l.fn, args, 0, l.in)
+			run(l.fn, args, 0, l.in[:len(l.in)-1])
+			run(l.fn, args, 0, l.in[:65536])
+			run(l.fn, args, 0, l.in[:65537])
 		}
 	}
 	// every structure the factories can build (the harvest only sees those whose description the translator
